@@ -44,6 +44,7 @@ type Frame struct {
 	defers    []deferred
 	recoverVal string // value recover() returns in this activation ("" = not in a deferred call)
 	localRefs []string
+	localIfaces map[string]Val // interface values that box a pointer to a variable of this frame
 	escaped  map[ssa.Value]bool
 	allocRefs map[ssa.Value]string
 	bounded  int // unroll bound for loops without invariant (0 = none)
@@ -52,6 +53,13 @@ type Frame struct {
 	frame    *frameSpec
 	callCount map[string]int
 	frameExtra string
+	// iteration mode (commute obligations): the header is entered with given phi values
+	iterHeader *ssa.BasicBlock
+	iterPhis   map[*ssa.Phi]Val
+	iterCont   []iterCont
+	summarise  bool                // inner loops become deterministic summaries of their live-in values
+	edgeOver   map[[2]int]string   // edge conditions fixed by a loop summary
+	summarised map[int]bool
 }
 
 type deferred struct {
@@ -215,6 +223,12 @@ func (f *Frame) run(heap *Heap, cur string) {
 }
 
 func (f *Frame) edgeCond(p, b *ssa.BasicBlock) string {
+	if c, ok := f.edgeOver[[2]int{p.Index, b.Index}]; ok {
+		return c
+	}
+	if f.summarised[p.Index] {
+		return "false"
+	}
 	pc := f.endCur[p.Index]
 	if pc == "" {
 		return "false"
@@ -241,7 +255,7 @@ func (f *Frame) runBlock(b *ssa.BasicBlock, entryHeap *Heap, entryCur string) {
 	var heap *Heap
 	var preds []*ssa.BasicBlock
 	var conds []string
-	if b.Index == 0 {
+	if b.Index == 0 || b == f.iterHeader {
 		cur, heap = entryCur, entryHeap.clone()
 	} else {
 		var hs []*Heap
@@ -271,7 +285,22 @@ func (f *Frame) runBlock(b *ssa.BasicBlock, entryHeap *Heap, entryCur string) {
 	ls := f.loopInfo[b.Index]
 	isHeader := ls != nil
 	// phis
-	if isHeader {
+	if b == f.iterHeader {
+		for _, in := range b.Instrs {
+			phi, ok := in.(*ssa.Phi)
+			if !ok {
+				break
+			}
+			if v, ok := f.iterPhis[phi]; ok {
+				f.vals[phi] = v
+			} else {
+				f.vals[phi] = Val{T: u.fresh("phi", u.D.SortOf(phi.Type())), Typ: phi.Type()}
+			}
+		}
+	} else if isHeader && f.summarise {
+		f.summariseLoop(b, ls, preds, conds, heap, cur)
+		return
+	} else if isHeader {
 		cur, heap = f.enterLoop(b, ls, preds, conds, heap, cur)
 	} else {
 		for _, in := range b.Instrs {
@@ -298,6 +327,25 @@ func (f *Frame) runBlock(b *ssa.BasicBlock, entryHeap *Heap, entryCur string) {
 		// back edges out of this block: preservation obligations
 		for _, s := range b.Succs {
 			if f.backEdges[[2]int{b.Index, s.Index}] {
+				if s == f.iterHeader {
+					// arrival at the next iteration: remember the state
+					idx := -1
+					for i, p := range s.Preds {
+						if p == b {
+							idx = i
+						}
+					}
+					ph := map[*ssa.Phi]Val{}
+					for _, in := range s.Instrs {
+						phi, ok := in.(*ssa.Phi)
+						if !ok {
+							break
+						}
+						ph[phi] = f.val(phi.Edges[idx])
+					}
+					f.iterCont = append(f.iterCont, iterCont{cond: f.edgeCond(b, s), phis: ph, heap: st.heap.clone()})
+					continue
+				}
 				f.closeLoop(b, s, st)
 			}
 		}
@@ -615,6 +663,14 @@ func (f *Frame) instr(in ssa.Instruction, st *state) {
 			u.emit("(assert (= " + app(unbox, payload) + " " + v.T + "))")
 		}
 		f.setDef(x, fmt.Sprintf("(mk-iface %d %s)", id, payload))
+		if al, isAl := x.X.(*ssa.Alloc); isAl {
+			if _, mine := f.allocRefs[al]; mine {
+				if f.localIfaces == nil {
+					f.localIfaces = map[string]Val{}
+				}
+				f.localIfaces[f.vals[x].T] = Val{T: v.T, Typ: x.X.Type()}
+			}
+		}
 	case *ssa.TypeAssert:
 		f.typeAssert(x, st)
 	case *ssa.Extract:
@@ -833,9 +889,70 @@ func (f *Frame) storeInstr(x *ssa.Store, st *state) {
 		f.nilCheck(st, x.Addr, x)
 	}
 	u.store(st.heap, l, v.T)
-	if !strings.HasPrefix(l.Arr, "P:") || !l.Local {
+	if (!strings.HasPrefix(l.Arr, "P:") || !l.Local) && !youngStore(x) {
 		u.bumpHV(st.heap, l.Local)
 	}
+}
+
+// youngStore: the store initialises an object allocated earlier in the same block that nothing
+// else has seen yet (composite literals, variadic argument arrays); no pure function evaluated
+// before can have depended on it, so the heap version need not advance.
+func youngStore(x *ssa.Store) bool {
+	derived := map[ssa.Value]bool{}
+	var root ssa.Value = x.Addr
+	for {
+		switch a := root.(type) {
+		case *ssa.FieldAddr:
+			root = a.X
+			continue
+		case *ssa.IndexAddr:
+			root = a.X
+			continue
+		}
+		break
+	}
+	al, ok := root.(*ssa.Alloc)
+	if !ok || al.Block() != x.Block() {
+		return false
+	}
+	derived[al] = true
+	started := false
+	for _, in := range x.Block().Instrs {
+		if in == ssa.Instruction(al) {
+			started = true
+			continue
+		}
+		if !started {
+			continue
+		}
+		if in == ssa.Instruction(x) {
+			return true
+		}
+		switch i := in.(type) {
+		case *ssa.FieldAddr:
+			if derived[i.X] {
+				derived[i] = true
+			}
+			continue
+		case *ssa.IndexAddr:
+			if derived[i.X] {
+				derived[i] = true
+				continue
+			}
+		case *ssa.Store:
+			if derived[i.Addr] && !derived[i.Val] {
+				continue
+			}
+		case *ssa.DebugRef:
+			continue
+		}
+		for _, op := range in.Operands(nil) {
+			if *op != nil && derived[*op] {
+				return false
+			}
+		}
+	}
+	return false
 }
 
 // bumpHV advances the heap version that pure (heap-reading) spec functions depend on.
@@ -1312,4 +1429,172 @@ func (u *Unit) parserInvariant(h *Heap, t string, typ types.Type) {
 			u.trusted["parser invariant: the attribute lists of a parsed pkix.Name are nil or non-empty (built by append)"] = true
 		}
 	}
+}
+
+
+// summariseLoop replaces a loop without invariant by a deterministic summary: which exit edge
+// is taken and every value that flows out of the loop are uninterpreted functions of the loop's
+// live-in values (and the heap version). Two executions with the same live-ins agree.
+func (f *Frame) summariseLoop(h *ssa.BasicBlock, ls *loopState, preds []*ssa.BasicBlock, conds []string, heap *Heap, cur string) {
+	u := f.u
+	if f.edgeOver == nil {
+		f.edgeOver = map[[2]int]string{}
+		f.summarised = map[int]bool{}
+	}
+	// entry values of the header phis
+	for _, in := range h.Instrs {
+		phi, ok := in.(*ssa.Phi)
+		if !ok {
+			break
+		}
+		f.definePhi(phi, h, preds, conds)
+	}
+	// live-ins: operands defined outside the loop (header phis contribute their entry values)
+	var ins []string
+	var sorts []string
+	seen := map[string]bool{}
+	addIn := func(v ssa.Value) {
+		if in, ok := v.(ssa.Instruction); ok && in.Block() != nil && ls.blocks[in.Block().Index] {
+			if phi, isPhi := v.(*ssa.Phi); !isPhi || phi.Block() != h {
+				return
+			}
+		}
+		x := f.val(v)
+		if x.T == "" || x.Loc != nil || seen[x.T] {
+			return
+		}
+		if _, isC := v.(*ssa.Const); isC {
+			return
+		}
+		seen[x.T] = true
+		typ := v.Type()
+		if x.Typ != nil {
+			typ = x.Typ
+		}
+		if rg, isRange := v.(*ssa.Range); isRange {
+			typ = rg.X.Type()
+		}
+		if sl, isSl := typ.Underlying().(*types.Slice); isSl {
+			// a list is identified by its contents, not by where it was allocated: two runs that
+			// build equal lists at different addresses get the same summary
+			arr, _ := u.elemArr(sl.Elem())
+			ins = append(ins, sel(u.hget(heap, arr), "(sl.base "+x.T+")"), "(sl.off "+x.T+")", "(sl.len "+x.T+")")
+			sorts = append(sorts, "(Array Int "+u.D.SortOf(sl.Elem())+")", "Int", "Int")
+			return
+		}
+		ins = append(ins, x.T)
+		sorts = append(sorts, u.D.SortOf(typ))
+	}
+	var bis []int
+	for bi := range ls.blocks {
+		bis = append(bis, bi)
+	}
+	sort.Ints(bis)
+	for _, bi := range bis {
+		for _, in := range f.fn.Blocks[bi].Instrs {
+			for _, op := range in.Operands(nil) {
+				if *op != nil {
+					addIn(*op)
+				}
+			}
+		}
+	}
+	u.scalar("$hv", "Int")
+	ins = append(ins, u.hget(heap, "$hv"))
+	sorts = append(sorts, "Int")
+	key := fmt.Sprintf("loopsum:%s:%d", funcDisplayName(f.fn), f.loopOrd[h.Index])
+	// exits
+	type edge struct{ from, to int }
+	var exits []edge
+	for _, bi := range bis {
+		for _, sb := range f.fn.Blocks[bi].Succs {
+			if !ls.blocks[sb.Index] {
+				exits = append(exits, edge{bi, sb.Index})
+			}
+		}
+	}
+	which := app(u.D.Fun(key+":exit", sorts, "Int"), ins...)
+	w := u.define("loop.exit", "Int", which)
+	u.emit(fmt.Sprintf("(assert (and (<= 0 %s) (< %s %d)))", w, w, maxInt(len(exits), 1)))
+	mod := f.loopModSet(ls)
+	after := u.newHeap(&Link{kind: "loop", parent: heap, mod: mod, keep: append([]string{}, f.localRefs...)})
+	for _, bi := range bis {
+		f.summarised[bi] = true
+		f.endCur[bi] = cur
+		f.endHeap[bi] = after
+		f.reach[bi] = cur
+	}
+	for k, e := range exits {
+		f.edgeOver[[2]int{e.from, e.to}] = u.define(fmt.Sprintf("loop.exit%d", k), "Bool", and(cur, fmt.Sprintf("(= %s %d)", w, k)))
+	}
+	// values flowing out of the loop
+	for _, bi := range bis {
+		for _, in := range f.fn.Blocks[bi].Instrs {
+			v, ok := in.(ssa.Value)
+			if !ok || v.Referrers() == nil {
+				continue
+			}
+			used := false
+			for _, r := range *v.Referrers() {
+				if r.Block() != nil && !ls.blocks[r.Block().Index] {
+					used = true
+				}
+			}
+			if !used {
+				continue
+			}
+			if tup, isTup := v.Type().(*types.Tuple); isTup {
+				var vs []Val
+				for i := 0; i < tup.Len(); i++ {
+					fn := u.D.Fun(fmt.Sprintf("%s:%s#%d", key, v.Name(), i), sorts, u.D.SortOf(tup.At(i).Type()))
+					vs = append(vs, Val{T: u.define("sum", u.D.SortOf(tup.At(i).Type()), app(fn, ins...)), Typ: tup.At(i).Type()})
+				}
+				f.vals[v] = Val{Typ: v.Type(), Tup: vs}
+				continue
+			}
+			if _, isPtr := v.Type().Underlying().(*types.Pointer); isPtr {
+				if _, isFA := v.(*ssa.FieldAddr); isFA {
+					continue
+				}
+				if _, isIA := v.(*ssa.IndexAddr); isIA {
+					continue
+				}
+			}
+			fn := u.D.Fun(fmt.Sprintf("%s:%s", key, v.Name()), sorts, u.D.SortOf(v.Type()))
+			t := u.define("sum", u.D.SortOf(v.Type()), app(fn, ins...))
+			u.assumeRange(t, v.Type())
+			f.vals[v] = Val{T: t, Typ: v.Type()}
+		}
+	}
+	// exits that jump straight back to the loop being iterated are arrivals at its next iteration
+	for _, e := range exits {
+		to := f.fn.Blocks[e.to]
+		if to != f.iterHeader {
+			continue
+		}
+		from := f.fn.Blocks[e.from]
+		idx := -1
+		for i, p := range to.Preds {
+			if p == from {
+				idx = i
+			}
+		}
+		ph := map[*ssa.Phi]Val{}
+		for _, in := range to.Instrs {
+			phi, ok := in.(*ssa.Phi)
+			if !ok {
+				break
+			}
+			ph[phi] = f.val(phi.Edges[idx])
+		}
+		f.iterCont = append(f.iterCont, iterCont{cond: f.edgeOver[[2]int{e.from, e.to}], phis: ph, heap: after.clone()})
+	}
+	u.note("inner loops without invariant are summarised as deterministic functions of their live-in values (commute obligations)")
+}
+
+func maxInt(a, b int) int {
+	if a > b {
+		return a
+	}
+	return b
 }
